@@ -436,6 +436,20 @@ fn indicator_configs(with_kinds: bool) -> Vec<Box<dyn IndCfg>> {
 		if small.validate() && small.to_json().ok() != c.to_json().ok() {
 			v.push(small.boxed_clone());
 		}
+		// every source in every source field of the default and of the small configuration (an inner series
+		// seeded from another price than the one it is fed with)
+		for (key, val) in &keys {
+			if val.as_str().map(|s| ["close", "open", "high", "low", "hl2", "tp", "volume", "volumed_price"].contains(&s)).unwrap_or(false) {
+				for base in [c.boxed_clone(), small.boxed_clone()] {
+					for src in ["open", "high", "low", "hl2", "tp", "close"] {
+						let mut t = base.boxed_clone();
+						if t.set(key, src.to_string()).is_ok() && t.validate() && !v.iter().any(|o: &Box<dyn IndCfg>| o.to_json().ok() == t.to_json().ok()) {
+							v.push(t);
+						}
+					}
+				}
+			}
+		}
 		if with_kinds {
 			for (key, val) in &keys {
 				if val.is_object() {
